@@ -6,7 +6,7 @@
 From Coq Require Import List NArith Bool.
 From Coq.Strings Require Import Byte.
 Import ListNotations.
-From OV Require Import Base.Bytes Base.Tree Model.Json Model.Xml Proofs.Json Proofs.Xml Proofs.XmlScope.
+From OV Require Import Base.Bytes Base.Tree Model.Json Model.Xml Proofs.Json Proofs.Xml Proofs.XmlScope Proofs.XmlLastWins.
 
 Section C08Json.
   Variable fmtf : N -> bytes.
@@ -46,16 +46,27 @@ Theorem xml_faithful : forall toks e d s' rest,
   exists consumed, toks = consumed ++ rest /\ tree_evs d = tok_evs consumed /\ In e (t_kids d).
 Proof. exact xml_faithful_tokens. Qed.
 
-(* XML, prefixes: for EVERY document that is namespace-well-formed (ns_wf) and binds no URI to
-   two different prefixes (uri_single_prefix): the first Read returns the document element, and
-   the tree is the reference DOM xdom_doc - every element and attribute node carries the prefix
-   WRITTEN in the document and the URI that prefix is bound to in scope at that node. *)
+(* XML, prefixes: for EVERY document that is namespace-well-formed (ns_wf) and on which the
+   reader's document-wide last-declaration-wins URI->prefix map holds, at every element and
+   prefixed attribute, the prefix written there (lastwins_ok - a decidable predicate on the
+   document; its complement is exactly the known class F11): the first Read returns the document
+   element, and the tree is the reference DOM xdom_doc - every element and attribute node carries
+   the prefix WRITTEN in the document and the URI that prefix is bound to in scope at that node.
+   Documents that re-bind a URI to a new prefix in an inner or later scope and use the new prefix
+   from then on are covered. *)
 Theorem xml_prefix_in_scope : forall d,
+  ns_wf d = true -> lastwins_ok d = true -> has_elem d = true ->
+  exists e, xbuild (xtokens d) = XRNode e (xdom_doc d) /\ In e (t_kids (xdom_doc d)).
+Proof. exact xml_dom_built_lw. Qed.
+
+(* The same conclusion under the simpler, stronger guard uri_single_prefix: no URI is bound to
+   two different prefixes anywhere in the document. *)
+Theorem xml_prefix_in_scope_single : forall d,
   ns_wf d = true -> uri_single_prefix d = true -> has_elem d = true ->
   exists e, xbuild (xtokens d) = XRNode e (xdom_doc d) /\ In e (t_kids (xdom_doc d)).
 Proof. exact xml_dom_built. Qed.
 
-(* F11: without uri_single_prefix the statement is false.
+(* F11: outside lastwins_ok the statement is false.
    <r xmlns:a="u"><x xmlns:b="u">1</x><a:y>2</a:y></r> : the node for <a:y> gets the prefix b. *)
 Definition f11_doc : xdoc :=
   [XElem [] [x72] [mkXA b_xmlns [x61] [x75]]
@@ -63,7 +74,7 @@ Definition f11_doc : xdoc :=
       XElem [x61] [x79] [] [XText [x32]]]].
 
 Theorem xml_prefix_refuted :
-  exists d, ns_wf d = true /\ uri_single_prefix d = false /\
+  exists d, ns_wf d = true /\ lastwins_ok d = false /\ uri_single_prefix d = false /\
     exists e t, xbuild (xtokens d) = XRNode e t /\ tree_eqb t (xdom_doc d) = false /\
       In (T ElementNode [x79] (FXml [x62] [x75]) [T TextNode [x32] (FXml [] []) []]) (t_kids e).
 Proof. exact xml_prefix_refuted. Qed.
@@ -108,9 +119,23 @@ Definition ex_doc : xdoc :=
      [XElem [] [x78] [] []; XText [x74]; XSkip; XElem [x70] [x79] [mkXA b_xmlns [x70] [x75; x32]] []];
    XText [x0a]].
 Example xml_prefix_in_scope_nonvacuous :
-  ns_wf ex_doc = true /\ uri_single_prefix ex_doc = true /\ has_elem ex_doc = true /\
+  ns_wf ex_doc = true /\ lastwins_ok ex_doc = true /\ uri_single_prefix ex_doc = true /\ has_elem ex_doc = true /\
   match xread xinit (xtokens ex_doc) with
   | (XRNode e d, _, rest) => tree_eqb d (xdom_doc ex_doc) = true /\ rest = [XTChar [x0a]]
+  | _ => False
+  end.
+Proof. vm_compute. repeat split. Qed.
+
+(* <lib:library xmlns:lib="urn:b"><bk:book xmlns:bk="urn:b" bk:id="7"/></lib:library> : the URI
+   is legitimately re-bound in an inner scope; outside uri_single_prefix, inside lastwins_ok *)
+Definition rebind_doc : xdoc :=
+  [XElem [x6c; x69; x62] [x6c; x69; x62; x72; x61; x72; x79] [mkXA b_xmlns [x6c; x69; x62] [x75; x72; x6e; x3a; x62]]
+     [XElem [x62; x6b] [x62; x6f; x6f; x6b]
+        [mkXA b_xmlns [x62; x6b] [x75; x72; x6e; x3a; x62]; mkXA [x62; x6b] [x69; x64] [x37]] []]].
+Example xml_rebind_inside_lastwins :
+  ns_wf rebind_doc = true /\ lastwins_ok rebind_doc = true /\ uri_single_prefix rebind_doc = false /\
+  match xread xinit (xtokens rebind_doc) with
+  | (XRNode e d, _, _) => tree_eqb d (xdom_doc rebind_doc) = true
   | _ => False
   end.
 Proof. vm_compute. repeat split. Qed.
